@@ -248,7 +248,7 @@ func MsgBytes(o SOp, ver int64, badSchema bool) []byte {
 		return HelloBytes(ver, badSchema)
 	case "done":
 		return mustEnc(atp.RuntimeMessage{MessageID: atp.MessageTypeWorkDone, RunID: o.R,
-			MessageData: atp.WorkDoneMessage{StepID: "s", OutputID: "success", OutputData: fmt.Sprintf("o%d", o.X)}})
+			MessageData: atp.WorkDoneMessage{StepID: "s", OutputID: "success", OutputData: fmt.Sprintf("o%d", o.X), DebugLogs: o.Logs}})
 	case "sig":
 		return mustEnc(atp.RuntimeMessage{MessageID: atp.MessageTypeSignal, RunID: o.R,
 			MessageData: atp.SignalMessage{SignalID: "sg", Data: "d"}})
@@ -273,7 +273,7 @@ func MsgBytes(o SOp, ver int64, badSchema bool) []byte {
 	case "garbage":
 		return []byte{0xff, 0xff, 0xff}
 	case "done1":
-		return mustEnc(atp.WorkDoneMessage{StepID: "s", OutputID: "success", OutputData: fmt.Sprintf("o%d", o.X)})
+		return mustEnc(atp.WorkDoneMessage{StepID: "s", OutputID: "success", OutputData: fmt.Sprintf("o%d", o.X), DebugLogs: o.Logs})
 	}
 	return nil
 }
